@@ -49,6 +49,7 @@ CFGS: List[Tuple[bool, bool, bool]] = [(bool(k & 4), bool(k & 2), bool(k & 1)) f
 SCOPES = ["resultField", "inputField", "variable", "operation", "enumValue"]
 TRIG1 = ["trigDigitLead", "trigTrimToKeyword", "trigFallbackNotFixed", "fallbackFires"]
 TRIG2 = ["trigSnakeMerge", "trigTrimMerge", "trigSuffixMerge", "trigFallbackMerge"]
+TYPENAME, TYPENAME_ALIAS = "__typename", "typename__"  # constants.TYPENAME_FIELD_NAME / TYPENAME_ALIAS (also in Tables.lean)
 FIXED_MODULES = ["client", "async_base_client", "base_model", "enums", "input_types", "fragments", "exceptions"]
 
 UTILS_REL = "ariadne_codegen/utils.py"
@@ -181,6 +182,22 @@ class Twin:
                 return name
         return None
 
+    # ---- scope level (Model/Names.lean trigScopeMerge / trigScopeSingle) ----
+    def typename_clash(self, snake: bool, a: str, b: str) -> bool:
+        return (not snake) and ((a == TYPENAME and b != TYPENAME and b.lstrip("_") == TYPENAME_ALIAS)
+                                or (b == TYPENAME and a != TYPENAME and a.lstrip("_") == TYPENAME_ALIAS))
+
+    def scope_pair_trigger(self, scope: str, snake: bool, a: str, b: str) -> Optional[str]:
+        if scope == "resultField" and TYPENAME in (a, b):
+            return "trigTypenameClash" if self.typename_clash(snake, a, b) else None
+        return self.pair_trigger(SCOPE_CFG[scope](snake), a, b)
+
+    def scope_single_trigger(self, scope: str, snake: bool, n: str) -> Optional[str]:
+        if scope == "resultField" and n == TYPENAME:
+            return None
+        t = self.single(SCOPE_CFG[scope](snake), n)
+        return "trigDigitLead" if t[0] else "trigTrimToKeyword" if t[1] else None
+
 
 def twin() -> Twin:
     from . import tables
@@ -303,8 +320,9 @@ def judge_names(ctx: Ctx, st: Optional[LeanStatus], names: Sequence[str], res: R
         res.count(f"names:{label}")
         if model is not None:
             m = model[i]
+            strig = [[tw.scope_single_trigger(sc, sn, n) is not None for sc in SCOPES] for sn in (False, True)]
             got = {"snake": impl["snake"], "pascal": impl["pascal"], "proc": impl["proc"], "gname": is_g,
-                   "word": bool(WORD_RE.match(n)), "alnum": alnum_of(n), "ok": oks, "trig": trig}
+                   "word": bool(WORD_RE.match(n)), "alnum": alnum_of(n), "ok": oks, "trig": trig, "strig": strig}
             want = {k: m[k] for k in got}
             if got != want and mism < 25:
                 mism += 1
@@ -444,7 +462,7 @@ def judge_groups(ctx: Ctx, st: Optional[LeanStatus], groups: List[Dict[str, List
         res.seen(["pair", k, a, b], nontrivial=merged)
         res.count("pairs:merged" if merged else "pairs:distinct")
         if model is not None:
-            want = model[(a, b)][k]
+            want = model[(a, b)]["cfgs"][k]
             got = [merged] + t
             if got != want and bad < 15:
                 bad += 1
@@ -592,8 +610,8 @@ def scope_batches(rng: Any, names: Sequence[str], batch: int, count: int) -> Lis
         chosen = sorted(set(rng.sample(gn, min(batch, len(gn)))), key=lambda n: rng.random())
         if scope == "enumValue":
             chosen = [n for n in chosen if n not in GRAPHQL_ENUM_FORBIDDEN]
-        if scope == "resultField" and i % 3 == 0:
-            chosen.insert(rng.randrange(len(chosen) + 1), "__typename")
+        if scope == "resultField" and i % 3 == 0 and TYPENAME not in chosen:
+            chosen.insert(rng.randrange(len(chosen) + 1), TYPENAME)
         out.append((scope, snake, chosen))
     return out
 
@@ -611,6 +629,7 @@ def judge_scopes(ctx: Ctx, st: Optional[LeanStatus], batches: List[Tuple[str, bo
         scope_model = common.run_driver(ctx.prop, [{"op": "scope", "scope": s, "snake": sn, "names": ns, "fixed": FIXED_MODULES}
                                                   for s, sn, ns in batches])
     bad = 0
+    pair_checks: List[Tuple[str, bool, str, str, bool]] = []
     for bi, ((scope, snake, names), (status, val)) in enumerate(zip(batches, outs)):
         inp = {"level": "scope", "scope": scope, "snake": snake, "names": names}
         res.count(f"scope-batches:{scope}")
@@ -635,13 +654,8 @@ def judge_scopes(ctx: Ctx, st: Optional[LeanStatus], batches: List[Tuple[str, bo
             one = {"level": "scope", "scope": scope, "snake": snake, "names": [n]}
             if wire != n:
                 _fail(res, "wire-name-lost", None, one, f"{scope} {n!r}: python name {py!r}, alias {alias!r}, travels as {wire!r}")
-            if n == "__typename" and scope == "resultField":
-                sig = out_ok(py, True)
-                trig1 = None
-            else:
-                sig = out_ok(py, cfg[2])
-                t = tw.single(cfg, n)
-                trig1 = "trigDigitLead" if t[0] else "trigTrimToKeyword" if t[1] else None
+            sig = out_ok(py, cfg[2])
+            trig1 = tw.scope_single_trigger(scope, snake, n)
             if sig:
                 _fail(res, sig, trig1, one, f"{scope} {n!r} (snake={snake}) becomes {py!r}")
             if isinstance(py, str):
@@ -649,9 +663,15 @@ def judge_scopes(ctx: Ctx, st: Optional[LeanStatus], batches: List[Tuple[str, bo
         for py, members in by_py.items():
             if len(members) > 1:
                 for a, b in list(itertools.combinations(members, 2))[:6]:
-                    trig = None if "__typename" in (a, b) else tw.pair_trigger(cfg, a, b)
+                    trig = tw.scope_pair_trigger(scope, snake, a, b)
+                    pair_checks.append((scope, snake, a, b, True))
                     _fail(res, "names-merged", trig, {"level": "scope", "scope": scope, "snake": snake, "names": [a, b]},
                           f"{scope}: {a!r} and {b!r} both become {py!r} and nothing refuses them")
+        # a few pairs that did NOT merge: the scope-level triggers must be silent on them
+        py_of = {n: r[0] for n, r in zip(names, rows)}
+        for a, b in zip(names[::7], names[3::7]):
+            if a != b and py_of[a] != py_of[b]:
+                pair_checks.append((scope, snake, a, b, False))
         if scope_model:
             sm = scope_model[bi]
             if sm["names"] != [r[0] for r in rows] and bad < 15:
@@ -660,6 +680,19 @@ def judge_scopes(ctx: Ctx, st: Optional[LeanStatus], batches: List[Tuple[str, bo
             if scope == "operation" and bool(val["ok"].get("refused")) != sm["refused"] and bad < 15:
                 bad += 1
                 res.mismatches.append(Mismatch("scope-refusal", inp, val["ok"].get("refused"), sm["refused"]))
+
+
+    # real merged / not merged + twin trigger vs the model's pyName equality and trigScopeMerge
+    if st is not None and st.driver_ok and pair_checks:
+        uniq = sorted({(a, b) for _, _, a, b, _ in pair_checks})
+        pm = dict(zip(uniq, common.run_driver(ctx.prop, [{"op": "pair", "a": a, "b": b} for a, b in uniq], chunk=50000)))
+        for scope, snake, a, b, merged in pair_checks:
+            want = pm[(a, b)]["scopes"][1 if snake else 0][SCOPES.index(scope)]
+            got = [merged, tw.scope_pair_trigger(scope, snake, a, b) is not None]
+            res.count("scope-pairs:merged" if merged else "scope-pairs:distinct")
+            if got != want and bad < 15:
+                bad += 1
+                res.mismatches.append(Mismatch("scope-pair", {"level": "scope", "scope": scope, "snake": snake, "names": [a, b]}, got, want))
 
 
 # --------------------------------------------------------------------------------------------
@@ -802,13 +835,12 @@ def judge_packages(ctx: Ctx, cases: List[Tuple[str, bool, str, str]], res: Resul
         if not (isinstance(py, list) and len(py) == 2):
             res.mismatches.append(Mismatch("package-emitted", inp, f"observer: {py!r}", "two python names"))
         elif py[0] == py[1]:
-            _fail(res, sig, tw.pair_trigger(cfg, a, b), inp, f"{scope} {a!r}/{b!r} snake={snake} both become {py[0]!r}: {v}: {val.get('cls', '')} {val.get('msg', '')}")
+            _fail(res, sig, tw.scope_pair_trigger(scope, snake, a, b), inp, f"{scope} {a!r}/{b!r} snake={snake} both become {py[0]!r}: {v}: {val.get('cls', '')} {val.get('msg', '')}")
         elif any(out_ok(o, cfg[2]) for o in py):
             trig = None
             for n, o in zip((a, b), py):
                 if out_ok(o, cfg[2]):
-                    t = tw.single(cfg, n)
-                    trig = trig or ("trigDigitLead" if t[0] else "trigTrimToKeyword" if t[1] else None)
+                    trig = trig or tw.scope_single_trigger(scope, snake, n)
             _fail(res, "broken-output", trig, inp, f"{scope} {a!r}/{b!r} snake={snake} become {py}: {v}: {val.get('cls', '')} {val.get('msg', '')}")
         else:
             res.count(f"package:{label}:{scope}:not-a-naming-matter")
